@@ -56,6 +56,10 @@ pub struct Cfg {
     pub p_large: f64,
     pub p_dup: f64,
     pub max_reoffer_rounds: usize,
+    /// what is offered again after the overload: the origin's chunks one by one, or each
+    /// missing version as one complete changeset (what a sync session delivers)
+    #[serde(default)]
+    pub reoffer_whole: bool,
 }
 
 struct World {
@@ -401,7 +405,23 @@ impl World {
                     }
                     self.log.push(format!("reoffer round {round}: missing {}", missing.len()));
                     for (o, v) in missing {
-                        let chunks = self.versions[&(o, v)].0.clone();
+                        let mut chunks = self.versions[&(o, v)].0.clone();
+                        if self.cfg.reoffer_whole && chunks.len() > 1 {
+                            // the whole version in one changeset, spanning whatever was kept
+                            if let Changeset::Full { version, last_seq, ts, .. } = &chunks[0].changeset {
+                                self.stats.fault("reoffered-as-one-complete-changeset");
+                                chunks = vec![ChangeV1 {
+                                    actor_id: chunks[0].actor_id,
+                                    changeset: Changeset::Full {
+                                        version: *version,
+                                        changes: self.versions[&(o, v)].1.clone(),
+                                        seqs: CrsqlSeq(0)..=*last_seq,
+                                        last_seq: *last_seq,
+                                        ts: *ts,
+                                    },
+                                }];
+                            }
+                        }
                         self.offered.insert((o, v));
                         for c in chunks {
                             // one at a time: the overload is over
@@ -455,6 +475,7 @@ pub fn draw_cfg(r: &mut Rng) -> Cfg {
         p_large: if r.chance(0.4) { 0.1 } else { 0.0 },
         p_dup: r.f64() * 0.3,
         max_reoffer_rounds: 3,
+        reoffer_whole: r.chance(0.4),
     }
 }
 
